@@ -1,4 +1,113 @@
-/- oracle_c20 — placeholder driver (replaced when the C20 model is added). -/
+/-
+  oracle_c20 — line-protocol driver for the allocator model (Model/Alloc.lean), V := Nat (fill tag).
+  Requests:
+    reset                         -> ok
+    m <size>                      -> ok s <pg> <i> <len> <cap> | ok p <id> <len> <cap> | err <e>
+    f s <pg> <i> | f p <id>       -> ok | err <e>
+    w s <pg> <i> <tag> | w p <id> <tag>  -> ok | err <e>
+    d <c>:<pg>,<pg>;<c>:…  | d -  -> ok <n> <oldpg>.<oldi>><newpg>.<newi> …   (relocations, in order per class) | err <e>
+    want                          -> classes DefragAllImproved would defragment now: "ok c c c" / "ok -"
+    st                            -> ok <allocs> <bytes> <privMmaps> <sharedMmaps> <nlive> <nextPage>
+    cls <c>                       -> ok cur=<pg|0> pc=<n> fs=<n> g=<pg.i,…|-> pl=<pg:brk:used:free:evac:i,i…|…>
+    live <addr…>                  -> ok <len>:<cap>:<tag|-> (memory of a live allocation; err if not live)
+-/
+import GocoinV.Model.Alloc
 import GocoinV.Base.Proto
-open GocoinV
-def main : IO Unit := Proto.serve () (fun _ _ => ((), "bad-op"))
+open GocoinV GocoinV.Alloc
+
+abbrev St := State Nat
+
+def errStr : Err → String
+  | .notLive => "notLive" | .pageReleaseBranch => "pageReleaseBranch" | .dispatchMismatch => "dispatchMismatch"
+  | .illegalChoice => "illegalChoice" | .corrupt => "corrupt"
+
+def addrStr : Addr → String
+  | .sh p i => s!"{p}.{i}"
+  | .pv id => s!"p{id}"
+
+def parseAddr : List String → Option (Addr × List String)
+  | "s" :: p :: i :: rest => match p.toNat?, i.toNat? with
+    | some p, some i => some (.sh p i, rest)
+    | _, _ => none
+  | "p" :: id :: rest => match id.toNat? with
+    | some id => some (.pv id, rest)
+    | none => none
+  | _ => none
+
+def parseNats (s : String) : Option (List Nat) :=
+  if s = "" then some [] else
+  (s.splitOn ",").foldr (fun t acc => match t.toNat?, acc with
+    | some n, some l => some (n :: l) | _, _ => none) (some [])
+
+def parseChoice (s : String) : Option (List (Nat × List Nat)) :=
+  if s = "-" then some [] else
+  (s.splitOn ";").foldr (fun t acc => match t.splitOn ":", acc with
+    | [c, l], some r => match c.toNat?, parseNats l with
+      | some c, some l => some ((c, l) :: r)
+      | _, _ => none
+    | _, _ => none) (some [])
+
+def joinWith (sep : String) (l : List String) : String := if l.isEmpty then "-" else sep.intercalate l
+
+def clsDump (s : St) (c : Nat) : String :=
+  let k := s.K c
+  let cur := match k.cur with | some p => p | none => 0
+  let g := joinWith "," (k.glist.map fun (p, i) => s!"{p}.{i}")
+  let pl := joinWith "|" (k.plist.map fun p => match s.pages.get? p with
+    | none => s!"{p}:unmapped"
+    | some h => s!"{p}:{h.brk}:{h.used}:{h.free}:{Proto.boolStr h.evac}:{",".intercalate (h.freeList.map toString)}")
+  s!"ok cur={cur} pc={k.pageCount} fs={k.freeSlots} g={g} pl={pl}"
+
+def step (s : St) (toks : List String) : St × String :=
+  let bad := (s, "bad-op")
+  match toks with
+  | ["reset"] => (Alloc.init, "ok")
+  | ["m", size] => match size.toNat? with
+    | none => bad
+    | some size => match malloc s size with
+      | .error e => (s, s!"err {errStr e}")
+      | .ok (s', a) =>
+        let (len, cap) := match s'.mem.get? a with | some m => (m.len, m.cap) | none => (0, 0)
+        match a with
+        | .sh p i => (s', s!"ok s {p} {i} {len} {cap}")
+        | .pv id => (s', s!"ok p {id} {len} {cap}")
+  | "f" :: rest => match parseAddr rest with
+    | some (a, []) => match free s a with
+      | .ok s' => (s', "ok")
+      | .error e => (s, s!"err {errStr e}")
+    | _ => bad
+  | "w" :: rest => match parseAddr rest with
+    | some (a, [tag]) => match tag.toNat? with
+      | none => bad
+      | some v => match write s a v with
+        | .ok s' => (s', "ok")
+        | .error e => (s, s!"err {errStr e}")
+    | _ => bad
+  | ["d", ch] => match parseChoice ch with
+    | none => bad
+    | some ch => match defragAll s ch with
+      | .error e => (s, s!"err {errStr e}")
+      | .ok s' =>
+        let rl := s'.relog.reverse
+        (s', s!"ok {rl.length} " ++ joinWith " " (rl.map fun (o, n) => s!"{addrStr o}>{addrStr n}"))
+  | ["want"] =>
+    (s, "ok " ++ joinWith " " (((List.range nClasses).filter (wantsDefrag s)).map toString))
+  | ["st"] => (s, s!"ok {s.allocs} {s.bytes} {s.privMmaps} {s.sharedMmaps} {s.live.size} {s.nextPage}")
+  | ["cls", c] => match c.toNat? with
+    | some c => (s, clsDump s c)
+    | none => bad
+  | "live" :: rest => match parseAddr rest with
+    | some (a, []) => match s.live.get? a, s.mem.get? a with
+      | some l, some m =>
+        let tag := match m.val with | some v => toString v | none => "-"
+        let gt := match l.val with | some v => toString v | none => "-"
+        let d := match m.data with | some d => addrStr d | none => "-"
+        (s, s!"ok {m.len}:{m.cap}:{tag}:{d}:{l.size}:{gt}")
+      | _, _ => (s, "err notLive")
+    | _ => bad
+  | ["consts"] =>
+    (s, s!"ok {pageSize} {Gen.MemClasses.headerSize} {Gen.MemClasses.sliceHdrLen} {maxShared} {nClasses} {osPageSize} {minFreePagesFrom} {minFreePagesTo} " ++
+        ",".intercalate (slotSizes.map toString))
+  | _ => bad
+
+def main : IO Unit := Proto.serve (Alloc.init : St) step
